@@ -21,6 +21,7 @@ import os
 import threading
 
 from . import absstate
+from .probe import staging_name
 
 S = {"observed": {}, "judged": {}, "skipped": {}, "violations": [], "tests": 0, "tests_with_judged_calls": 0}
 _cur = {"nodeid": None, "judged": 0}
@@ -57,7 +58,7 @@ def _permanent(files):
     out = {}
     for k, v in files.items():
         parts = k.split("/")
-        if len(parts) >= 2 and parts[1] == "tmp":
+        if len(parts) >= 3 and parts[0] in ("objects", "metadata", "refs") and staging_name(parts[1]):
             continue
         out[k] = v
     return out
